@@ -15,7 +15,7 @@ RULE = ('programs (ending by value / Stop / UnsuccessfulResult / Kill command / 
 ASSUMPTIONS = ['expected outcome is computed from the program text and the request log, not read back from the process',
                'hooks do not raise (C03 owns that)']
 REQUIRED = ['terminated', 'final/finished', 'final/excepted', 'final/killed', 'kill_while_paused', 'kill_in_step', 'kill_from_listener',
-            'unsuccessful_by_outputs', 'raising_listener_runs']
+            'unsuccessful_by_outputs', 'raising_listener_runs', 'listener_twice_runs']
 ALPHABET = [['pause', 'p'], ['play'], ['kill', 'k'], ['resume', ['v']], ['fail', 'f'], ['soon_raise', 'c']]
 BOUNDS = {'quick': 'basic program family (+required-output variants), K<=2 exhaustive', 'thorough': 'K=3 exhaustive on 4 key programs, + 40 random programs, K=3 sampled'}
 
@@ -52,6 +52,10 @@ def gen_cases(tier, seed):
         for j, plan in enumerate([[]] + list(plans.all_placements(n, [['pause', 'p'], ['kill', 'k'], ['fail', 'f']], 1))):
             yield {'name': name, 'program': prog, 'plan': plans.uniq(plan, 'r%d' % j), 'drain': True, 'probe': False,
                    'barrage': False, 'listener': 'raising', 'req_output': req}
+        # the same listener registered twice (and another one registered twice, then removed)
+        for j, plan in enumerate([[]] + list(plans.all_placements(n, [['pause', 'p'], ['kill', 'k'], ['fail', 'f']], 1))):
+            yield {'name': name, 'program': prog, 'plan': plans.uniq(plan, 't%d' % j), 'drain': True, 'probe': False,
+                   'barrage': False, 'listener': 'twice', 'req_output': req}
         for i, plan in enumerate(itertools.chain(plist, deep)):
             yield {'name': name, 'program': prog, 'plan': plans.uniq(plan, 'q%d' % i), 'drain': True, 'probe': False,
                           'barrage': False, 'listener': True, 'req_output': req}
@@ -62,7 +66,7 @@ def run_case(case):
     viol = judges.judge_c02(rec)
     fin = rec['final']
     obs = {'terminated': int(bool(fin and fin['terminated'])), 'final': {}, 'kill_while_paused': 0, 'kill_in_step': 0, 'kill_from_listener': 0,
-           'unsuccessful_by_outputs': 0, 'views_compared': 0, 'raising_listener_runs': int(case.get('listener') == 'raising')}
+           'unsuccessful_by_outputs': 0, 'views_compared': 0, 'raising_listener_runs': int(case.get('listener') == 'raising'), 'listener_twice_runs': int(case.get('listener') == 'twice')}
     if fin:
         obs['final'][fin['state']] = 1
         if fin['terminated']:
@@ -78,7 +82,7 @@ def run_case(case):
                 obs['kill_in_step'] += 1
             if a['via'].startswith('listener'):
                 obs['kill_from_listener'] += 1
-    res = {'viol': viol, 'obs': obs, 'inconclusive': rec['inconclusive'], 'key': [case['name'], case['plan']],
+    res = {'viol': viol, 'obs': obs, 'inconclusive': rec['inconclusive'], 'key': [case['name'], case['plan'], case.get('listener')],
            'nontrivial': bool(fin and fin['terminated'])}
     res['sample'] = {'program': case['name'], 'plan': case['plan'], 'final_views': fin, 'task': rec['task']}
     return res
